@@ -52,16 +52,20 @@ def converse(rng, n, wd, idx):
     from mysensors.ota import load_fw
     # every third conversation re-uses the previous gateway AND firmware id: a new image under the same (type, version)
     reuse = _SHARED.get("gw") is not None and idx % 3 != 0
+    retarget = reuse and idx % 3 == 2       # same gateway and nodes, ANOTHER firmware id: the earlier image stays loaded
     img = bytes(rng.randrange(256) for _ in range(n)) if rng.random() < 0.8 else bytes([rng.choice([0, 255])]) * n
     ft = rng.choice([0, 1, 10, 255, 256, 65535, rng.randrange(65536)])
     fv = rng.choice([0, 1, 2, 65535, rng.randrange(65536)])
-    if reuse:
+    if reuse and not retarget:
         ft, fv = _SHARED["fw"]
+    elif retarget and (ft, fv) == _SHARED["fw"]:
+        fv = (fv + 1) % 65536
     path = os.path.join(wd, f"img{idx}.hex")
     start = rng.choice([0, 0, 0x100, 0x1000]) if n < 20000 else 0
     ihex.write(path, img, reclen=rng.choice([16, 32, 8, 255]), start=start)
     rec = {"img": list(img), "ft": ft, "fv": fv, "cfgs": [], "blks": [], "len": n, "hasloaded": False, "loaded": [],
-           "err": ""}
+           "err": "", "hasprev": False, "pimg": [], "pblocks": 0, "pblks": []}
+    prev = _SHARED.get("last") if retarget else None
     try:
         loaded = load_fw(path)
         if loaded is not None:
@@ -71,10 +75,11 @@ def converse(rng, n, wd, idx):
         else:
             ver = rng.choice(["1.4", "1.5", "2.0", "2.1", "2.2"])
             gw = mysensors.BaseSyncGateway(RecTransport(), protocol_version=ver)
+            _SHARED["last"] = None
             nodes = rng.sample([1, 2, 7, 200, 254], rng.randint(1, 3))
             for nd in nodes:
                 gw.logic(f"{nd};255;0;0;17;{ver}\n")
-            _SHARED.update(gw=gw, nodes=nodes, fw=(ft, fv))
+        _SHARED.update(gw=gw, nodes=nodes, fw=(ft, fv))
         gw.update_fw(nodes if len(nodes) > 1 else nodes[0], ft, fv, path)
         for nd in nodes:
             r = gw.logic(f"{nd};255;4;0;0;{hexwords(ft, rng.randrange(65536), 7, 8, 9)}\n")
@@ -108,6 +113,19 @@ def converse(rng, n, wd, idx):
                     continue
                 w, data = words(h[5], 3)
                 rec["blks"].append([ft, fv, bi, w[0], w[1], w[2], data])
+            _SHARED["last"] = {"ft": ft, "fv": fv, "img": list(img), "blocks": blocks}
+            if prev is not None and (prev["ft"], prev["fv"]) != (ft, fv):
+                # late requests that still name the firmware the nodes were fetching before they were re-targeted: whatever is
+                # answered must be labelled with, and carry the data of, the firmware the request names
+                rec.update(hasprev=True, pimg=prev["img"], pblocks=prev["blocks"])
+                for bi in [0, prev["blocks"] - 1] + [rng.randrange(prev["blocks"]) for _ in range(6)]:
+                    nd = rng.choice(nodes)
+                    r = gw.logic(f"{nd};255;4;0;2;{hexwords(prev['ft'], prev['fv'], bi)}\n")
+                    if r is None:
+                        continue
+                    h = r.rstrip("\n").split(";")
+                    w, data = words(h[5], 3)
+                    rec["pblks"].append([prev["ft"], prev["fv"], bi, w[0], w[1], w[2], data])
     except Exception as exc:  # pylint: disable=broad-except
         rec["err"] = f"exception {type(exc).__name__}: {exc}"
     finally:
